@@ -230,6 +230,10 @@ func flowStream(prop string, r *hx.Rand, tier string, n int, w *bufio.Writer) ma
 		if prop == "C04" || (prop == "C07" && r.Chance(40)) { // deep3-C04: access-token type per registration (c04x.go)
 			c04xPrepare(r, cls, stats)
 		}
+		var sc *c04scPolicy // round 4b (C04): a provider whose JWTProfileVerifier carries a custom subject check (c04sc.go)
+		if prop == "C04" {
+			sc = c04scSetup(r, bed, cls, stats)
+		}
 		for _, fc := range cls {
 			bed.Store.AddClient(fc.c)
 		}
@@ -244,6 +248,9 @@ func flowStream(prop string, r *hx.Rand, tier string, n int, w *bufio.Writer) ma
 			B("refresh", cfg.Refresh).S("issuer", opbed.Issuer)
 		clientsKV(l, cls)
 		ksLine(l, "published", []*hx.Key{bed.SignKey}, []string{"sig1"}, []string{"sig"}) // what an id_token_hint is verified against
+		if sc != nil {
+			sc.describe(l)
+		}
 		emit(l)
 
 		var pending []string // auth request ids not yet called back
@@ -821,8 +828,10 @@ func flowStream(prop string, r *hx.Rand, tier string, n int, w *bufio.Writer) ma
 			}
 		}
 		if prop == "C04" { // deep3-C04: scripted openings of c04x.go (faults at the k-th storage call, races, redirect_uri / PKCE near-misses)
-			c04xScenarios(&c04xCtx{prop: prop, tier: tier, r: r, bed: bed, sy: sy, cls: cls, byID: byID, stats: stats, gate: gate,
-				emit: emit, caseNo: &caseNo, doLogin: doLogin, doCallback: doCallback})
+			xc := &c04xCtx{prop: prop, tier: tier, r: r, bed: bed, sy: sy, cls: cls, byID: byID, stats: stats, gate: gate,
+				emit: emit, caseNo: &caseNo, doLogin: doLogin, doCallback: doCallback}
+			c04xScenarios(xc)
+			c04scScenarios(xc, sc) // round 4b: assertions of one private_key_jwt client for another's code under a custom subject check
 		}
 		if prop == "C07" { // deep4-C07: scripted openings of c07fault.go (fault sweep over every storage call of a refresh, concurrent refreshes)
 			c07fScenarios(&c07fCtx{prop: prop, tier: tier, r: r, bed: bed, sy: sy, cls: cls, byID: byID, stats: stats, f: c7, gate: gate7,
